@@ -1706,7 +1706,11 @@ def pool_violations(descs: List[Dict[str, Any]], objs: List[Any], obs: Optional[
             report("equivalence_laws", [i], law="hash is stable")
     for i in range(n):
         oi = objs[i]
-        identity_kind = ("placeholder_identity" if isinstance(oi, CaseCitation) and oi.groups.get("page") is None
+        # a placeholder page is recognised from the MATCHED TEXT (last field a run of underscores), not only from the code's own
+        # normalisation of groups["page"] to None -- so that a change to that normalisation is noticed
+        _data = str(getattr(getattr(oi, "token", None), "data", "") or "")
+        _last = _data.split()[-1] if _data.split() else ""
+        identity_kind = ("placeholder_identity" if isinstance(oi, CaseCitation) and (oi.groups.get("page") is None or (_last and set(_last) == {"_"}))
                          else "id_unknown_identity" if isinstance(oi, (IdCitation, UnknownCitation)) else None)
         for j in range(n):
             if i == j:
@@ -1839,7 +1843,7 @@ def _c16_texts(rng: random.Random, k: int) -> List[str]:
     out = []
     for _ in range(k):
         rep = rng.choice(_C16_REPS)
-        vol, page = rng.choice(["1", "2", "10"]), rng.choice(["1", "5", "100", "___"])
+        vol, page = rng.choice(["1", "2", "10"]), rng.choice(["1", "5", "100", "___", "_", "__", "_____"])
         core = f"{vol} {rep} {page}"
         t = rng.choice([
             "{c}", "See {c}.", "{p} v. {d}, {c}", "{p} v. {d}, {c}, {pin} ({y})", "{p} v. {d}, {c} ({y}) (holding that x)",
